@@ -305,9 +305,55 @@ def replay_name2id(wj):
     return run_native("c13_name2id_other_context", wj)
 
 
+def h_task_unique_decorator(eng):
+    """@task_unique (decorator subsystem): every run claims the name through ITS OWN evaluator - the one the manager created for
+    that run (data.call_ast_ctx) - because the global context the name is qualified with is read from that evaluator when
+    task.unique is called; an evaluator of an earlier run may by then be inside a function of another file.  Two runs are handled
+    in a row."""
+    from pyvc.loader import Module
+    it = Interpreter(eng)
+    w = World(eng)
+    U = "C13/TaskUniqueDecorator.handle_call"
+    made, claims, used = [], [], []
+
+    def factory(i, ctx):
+        made.append(ctx)
+        return lambda i2, name, **kw: Coro(lambda: claims.append((ctx, name)), "task.unique")
+
+    def name_used(i, ctx, name):
+        used.append((ctx, name))
+        return bool(eng.choose(2, "name-in-use"))
+    Fn = Rec(fields={"task_unique_factory": factory, "unique_name_used": name_used}, name="Function")
+    mod = Module(it, f"{PKG}/decorators/task.py", stubs={"_LOGGER": logger_stub(), "Function": Fn, "CallHandlerDecorator": ClassRec("CallHandlerDecorator"),
+                                                          "AutoKwargsDecorator": ClassRec("AutoKwargsDecorator"), "DispatchData": ClassRec("DispatchData"),
+                                                          "vol": PyModule("vol", {"Schema": lambda i, *a, **k: None, "All": lambda i, *a, **k: None, "Length": lambda i, **k: None, "Optional": lambda i, *a, **k: "kill_me"}),
+                                                          "cv": PyModule("cv", {"boolean": None}), "logging": PyModule("logging", {"getLogger": lambda i, n: logger_stub()})})
+    cls = mod.env.vars["TaskUniqueDecorator"]
+    kill_me = bool(eng.choose(2, "kill_me"))
+    dec = Rec(cls=cls, fields={"args": ["n"], "kwargs": {}, "kill_me": kill_me, "name": "task_unique"}, name="task_unique_dec")
+    ctxs = [Rec(name="run1_ast_ctx"), Rec(name="run2_ast_ctx")]
+    results = []
+    for c in ctxs:
+        k, v = run_catching(it, lambda: it.await_(it.call(it.getattr_(dec, "handle_call"), [Rec(fields={"call_ast_ctx": c}, name="DispatchData")], {})))
+        results.append((k, v))
+    eng.cover("ran")
+    eng.oblige(f"{U}/post.no-exception", all(k == "ok" for k, _ in results))
+    for j, c in enumerate(ctxs):
+        refused = kill_me and results[j][1] is False
+        mine = [x for x in claims if x[0] is c]
+        others = [x for x in claims if x[0] is not c and x[0] not in ctxs[:j]]
+        ob = eng.oblige(f"{U}/post.each-run-claims-the-name-through-its-own-evaluator", (mine == []) if refused else (mine == [(c, "n")]))
+        if ob.status == "refuted":
+            ob.witness = {"signature": "claim-through-an-earlier-runs-evaluator", "run": j + 1}
+        if kill_me:
+            eng.oblige(f"{U}/post.kill_me-asks-about-this-runs-context", any(u[0] is c and u[1] == "n" for u in used))
+    eng.oblige(f"{U}/post.no-claim-through-any-other-evaluator", all(x[0] in ctxs for x in claims) and len(claims) <= 2)
+
+
 def harnesses():
     return [
         Harness("task_unique", h_task_unique, units=[(F_PY, "Function.task_unique_factory")]),
+        Harness("task_unique.decorator", h_task_unique_decorator, units=[(f"{PKG}/decorators/task.py", "TaskUniqueDecorator.handle_call")]),
         Harness("task_name2id", h_name2id, units=[(F_PY, "Function.task_name2id_factory")], replay=replay_name2id),
         Harness("contexts_disjoint", h_contexts_disjoint, units=[(F_PY, "Function.unique_name_used")],
                 replay=replay_ctx_collision),
